@@ -12,6 +12,7 @@ import MW.Spec.KV
 import MW.Lemmas.KvDelete
 import MW.Lemmas.KvIterW
 import MW.Lemmas.KvSnapshot
+import MW.Lemmas.KvHandlesRefine
 namespace MW.Props.C11
 open MW MW.KV MW.Model.KV
 
@@ -261,5 +262,104 @@ example :
 /-- recursive bucket deletion: with the budget DeleteBucket computes it never runs out of fuel,
     removes the bucket, every bucket below it and all their entries, and nothing else -/
 theorem deleteBucket_total : DeleteSpec := deleteSpec
+
+/-! ## 7. round 4 — what callers keep across operations: bucket handles, BucketMeta / FetchBucket, and
+    a read transaction after its end (model MW.Model.KVHandles, specification MW.Spec.KVX) -/
+
+/-- `handle_follows_path`: a method called on a KEPT bucket handle `hb` – obtained at any earlier
+    time for bucket `p` – does exactly what the same operation does when it navigates again from the
+    transaction to `p ++ rel`, whenever navigation finds bucket `p` now (also when `p` or an ancestor
+    was deleted and created again meanwhile: a handle is its path). -/
+theorem handle_follows_path {tx : Tx} {p : Path} {hb : Bucket} (h : nav tx p = some hb) (op : Op)
+    (hs : Spec.KV.viaShapeOK op = true) (hsl : slotOf op ≠ none) :
+    dataOpVia tx hb op = dataOp tx (Spec.KV.reroot p op) :=
+  dataOpVia_eq h op hs hsl
+
+-- non-trivial instance: the handle of bucket a/b after `a/b` was deleted and created again
+example :
+    let tx0 : Tx := { readOnly := false, db := [] }
+    let tx1 := (dataOp tx0 (.create .w [[97]])).2
+    let tx2 := (dataOp tx1 (.create .w [[97], [98]])).2
+    let hb := (nav tx2 [[97], [98]]).getD { name := [], path := [], depth := 0 }
+    let tx3 := (dataOp tx2 (.delb .w [[97], [98]])).2
+    let tx4 := (dataOp tx3 (.create .w [[97], [98]])).2
+    nav tx4 [[97], [98]] = some hb ∧ nav tx3 [[97], [98]] = none := by decide +kernel
+
+/-- `fetchBucket_cache_transparent`: FetchBucket (with the repaired revalidation of a cache hit)
+    answers exactly "the bucket the meta names exists in the transaction's view" – the view that
+    includes the transaction's own pending creates and deletes –, hands out the handle navigation
+    would build, and keeps the cache invariant. -/
+theorem fetchBucket_cache_transparent {tx : Tx} {d : Spec.KV.DB} (htx : TxRel tx d) {cache : AMap.T Nat Bucket}
+    {sm : AMap.T Nat Path} (hci : CacheInv tx cache sm) {m : Nat} {p : Path} (hm : AMap.get sm m = some p)
+    {b : Bucket} (hb : pureNav p = some b) (hba : b.IsAt p) :
+    (tx.fetchCached cache m b.metaPaths).1 = (if d.has p then some b else none) ∧
+    CacheInv tx (tx.fetchCached cache m b.metaPaths).2 sm :=
+  fetchCached_spec htx hci hm hb hba
+
+example (tx : Tx) (sm : AMap.T Nat Path) : CacheInv tx [] sm := CacheInv.nil tx sm
+
+/-- `kv_refines_x`: THE property for histories that also keep bucket handles and BucketMeta objects
+    across operations (`keep`, `getMeta`, `fetch` through the per-transaction cache, `via` = any data
+    operation through a kept handle, also after the bucket or an ancestor was deleted and created
+    again in the same transaction) and use a read transaction and its bucket handles after its
+    Rollback (`dead`, `deadVia`): every observable result of the model equals the specification's,
+    up to the first operation that WRITES through the handle of a bucket that does not exist in
+    the transaction's view (out of contract; reads through such a handle are unspecified). -/
+theorem kv_refines_x (ops : List OpX) : RunsAgreeX ops (Model.KV.runX {} ops) (Spec.KV.runX {} ops) :=
+  runX_sim deleteSpec ops {} {} SysRelX.init
+
+/-- one step of the extended system from any pair of related states -/
+theorem kv_stepX_refines {m : SysX} {σ : Spec.KV.SysX} (h : SysRelX m σ) (op : OpX) :
+    (σ.step op).2 = .outOfContract ∨
+    (SysRelX (m.step op).1 (σ.step op).1 ∧ ObsAgreeX op (m.step op).2 (σ.step op).2) :=
+  stepX_sim deleteSpec h op
+
+example : SysRelX {} {} := SysRelX.init
+
+/-- the extended model run on a history of plain operations IS the model of `kv_refines` -/
+theorem kv_x_conservative (ops : List Op) : Model.KV.runX {} (ops.map .base) = Model.KV.run {} ops :=
+  runX_base ops {}
+
+/-- a history inside the contract (no `outOfContract`): meta, fetch (miss, hit), delete, fetch again
+    (the cached handle is NOT handed out: D44), re-create, fetch, and operations through the handle
+    kept from before the delete. -/
+example :
+    let a : Bytes := [97]
+    let b : Bytes := [98]
+    let ops : List OpX := [
+      .base .beginW, .base (.create .w [a]), .base (.create .w [a, b]), .base (.put .w [a, b] [1] [2]),
+      .getMeta .w 0 [a, b], .base .commit, .base .beginW,
+      .fetch .w 0 0, .fetch .w 1 0, .via 0 (.get .w [] [1]),
+      .base (.delb .w [a, b]), .fetch .w 2 0, .via 0 (.get .w [] [1]),
+      .base (.create .w [a, b]), .fetch .w 2 0, .via 0 (.put .w [] [3] [4]), .via 2 (.get .w [] [3]),
+      .base .commit, .base .beginR, .keep .r 0 [a, b], .base .endR, .deadVia 0 (.get .r [] [3]), .dead (.has .r [a])]
+    Spec.KV.runX {} ops =
+      [.ok, .ok, .ok, .ok, .ok, .ok, .ok,
+       .bool true, .bool true, .val (some [2]),
+       .ok, .bool false, .unspecified,
+       .ok, .bool true, .ok, .val (some [4]),
+       .ok, .ok, .bool true, .ok, .err .released, .bool false] ∧
+    Model.KV.runX {} ops =
+      [.ok, .ok, .ok, .ok, .ok, .ok, .ok,
+       .bool true, .bool true, .val (some [2]),
+       .ok, .bool false, .val none,
+       .ok, .bool true, .ok, .val (some [4]),
+       .ok, .ok, .bool true, .ok, .err .released, .bool false] := by
+  decide +kernel
+
+/-- the contract is NECESSARY: a write through the handle of a deleted bucket is accepted by the
+    driver and stores an orphan entry, which a later bucket of the same path inherits – the model
+    (and the real driver: corpus/kv/C11-kept-handles.ops, class via-stale-write) shows `6b ↦ 01` in
+    the new bucket, where any specification by buckets and maps has an empty bucket. -/
+example :
+    let a : Bytes := [97]
+    let b : Bytes := [98]
+    let ops : List OpX := [
+      .base .beginW, .base (.create .w [a]), .base (.create .w [a, b]), .keep .w 0 [a, b],
+      .base (.delb .w [a, b]), .via 0 (.put .w [] [0x6b] [1]),
+      .base (.create .w [a, b]), .base (.pfx .w [a, b] [])]
+    (Spec.KV.runX {} ops).getD 5 .ok = .outOfContract ∧
+    (Model.KV.runX {} ops).getLast? = some (.entries [([0x6b], [1])]) := by
+  decide +kernel
 
 end MW.Props.C11
